@@ -43,6 +43,10 @@ PROGRAMS = [
     ("SELECT kind, flag, sum(amount) AS s, count(amount) AS n FROM orders GROUP BY kind, flag", ["kind", "flag"], ["s", "n"]),
     ("SELECT u.city AS city, o.kind AS kind, sum(o.amount) AS s FROM orders AS o JOIN users AS u ON o.user_id = u.id GROUP BY u.city, o.kind", ["city", "kind"], ["s"]),
     ("SELECT sum(frac) AS f, avg(frac) AS m FROM orders", [], ["f", "m"]),
+    # DISTINCT aggregates (alone, next to plain aggregates, grouped)
+    ("SELECT count(DISTINCT kind) AS k FROM orders", [], ["k"]),
+    ("SELECT sum(DISTINCT kind) AS k, count(amount) AS n FROM orders", [], ["k", "n"]),
+    ("SELECT flag, avg(DISTINCT kind) AS m, sum(amount) AS s FROM orders GROUP BY flag", ["flag"], ["m", "s"]),
     # outer join along the privacy-unit path: units without orders keep their (padded) row
     ("SELECT sum(u.age) AS s, count(u.age) AS n FROM users AS u LEFT JOIN orders AS o ON u.id = o.user_id", [], ["s", "n"]),
     ("SELECT u.city AS city, count(u.age) AS n FROM users AS u LEFT JOIN orders AS o ON u.id = o.user_id GROUP BY u.city", ["city"], ["n"]),
@@ -152,7 +156,7 @@ def main():
     extra, seen = [], {p_[0] for p_ in PROGRAMS}
     while len(extra) < (2 if tier == "quick" else 30):
         q = pucat.random_dp_program(rnd, aligned_only=True, joins=(tier != "quick"))   # C09 quantifies over joins along the privacy-unit path only
-        if q[0] not in seen and "DISTINCT" not in q[0]:
+        if q[0] not in seen:
             seen.add(q[0])
             extra.append(q)
     for sql, kc, ac in list(PROGRAMS) + extra:
@@ -244,6 +248,20 @@ def main():
         if problems:
             aggs = sorted({re.sub(r"\(.*", "", x.strip()) for x in info["sql"].split(" FROM")[0].replace("SELECT ", "").split(",") if "(" in x})
             key = "dp=inexact-without-noise/%s" % "+".join(aggs)
+            # role of the columns that differ: if every differing column is the output of a DISTINCT aggregate the finding is
+            # "DISTINCT is not applied by the DP compilation" (keyed by the aggregate function), otherwise the general key
+            items = {}
+            for x in info["sql"].split(" FROM")[0].replace("SELECT ", "").split(","):
+                mm_ = re.match(r"\s*(\w+)\((DISTINCT\s+)?.*\)\s+AS\s+(\w+)\s*$", x, re.I)
+                if mm_:
+                    items[mm_.group(3)] = (mm_.group(1).lower(), bool(mm_.group(2)))
+            diff_cols = []
+            for a in orp:
+                for b in dpp:
+                    if all(tol(x, y) for x, y in zip(a[:nk], b[:nk])):
+                        diff_cols += [c for c, x, y in zip(cols[nk:], a[nk:], b[nk:]) if not tol(x, y)]
+            if diff_cols and all(items.get(c, ("", False))[1] for c in diff_cols):
+                key = "dp=inexact-without-noise/distinct-aggregate-not-deduplicated/%s" % items[[c for c in cols[nk:] if c in diff_cols][0]][0]
             if info.get("clamp"):
                 up = info["sql"].upper()
                 key = "dp=inexact-without-noise/result-clamped-to-declared-range/%s" % ("outer-join" if any(k in up for k in ("LEFT JOIN", "RIGHT JOIN", "FULL JOIN")) else "other")
